@@ -171,27 +171,22 @@ def confirm(v):
     if not tests:
         v["replayed"] = None
         return v
-    # prefer the test generated for the check this violation is about
+    # prefer the test generated for the check this violation is about; all candidates are appended to one scratch copy
+    # and run in a single native test run (one build), the violation is confirmed if any of them fails
     want = (v.get("check") or "").split("[")[0]
     tests.sort(key=lambda t: 0 if want and want in t else 1)
-    v["replayed"] = None
-    for test_src in tests[:6]:
-        r = _playback_one(crate, name, test_src, v)
-        if r is True:
-            v["replayed"] = True
-            v["playback_test"] = test_src
-            return v
-        if r is False and v["replayed"] is None:
-            v["replayed"] = False
-            v["playback_test"] = test_src
+    tests = tests[:6]
+    r = _playback(crate, name, tests, v)
+    v["replayed"] = r
+    v["playback_test"] = tests[0]
     return v
 
 
-def _playback_one(crate, name, test_src, v):
-    tn = re.search(r"fn (kani_concrete_playback_\w+)", test_src)
-    if not tn:
+def _playback(crate, name, tests, v):
+    names = [m.group(1) for t in tests for m in [re.search(r"fn (kani_concrete_playback_\w+)", t)] if m]
+    if not names:
         return None
-    # scratch copy of the harness crate with the test appended to the module that owns the harness
+    # scratch copy of the harness crate with the tests appended to the module that owns the harness
     scratch = os.path.join(ROOT, "target", "kani_playback", f"{crate}-{os.getpid()}")
     shutil.rmtree(scratch, ignore_errors=True)
     shutil.copytree(os.path.join(HARNESS, crate), scratch, ignore=shutil.ignore_patterns("target"))
@@ -206,10 +201,14 @@ def _playback_one(crate, name, test_src, v):
         shutil.rmtree(scratch, ignore_errors=True)
         return None
     with open(owner, "a") as f:
-        f.write("\n" + test_src + "\n")
+        for t in tests:
+            f.write("\n" + t + "\n")
+    e = env()
+    # the native test build of the dependency tree is kept between confirmations
+    e["CARGO_TARGET_DIR"] = os.path.join(ROOT, "target", f"kani_playback_target_{crate}")
     try:
-        p = subprocess.run(["cargo", "kani", "playback", "-Z", "concrete-playback", "--", tn.group(1)], cwd=scratch,
-                           capture_output=True, text=True, env=env(), timeout=3000)
+        p = subprocess.run(["cargo", "kani", "playback", "-Z", "concrete-playback", "--", "kani_concrete_playback_" + name], cwd=scratch,
+                           capture_output=True, text=True, env=e, timeout=3000)
         o = p.stdout + p.stderr
     except subprocess.TimeoutExpired:
         o = "playback timed out"
